@@ -37,10 +37,16 @@ def ast_cfg(headers, macrodefs, topgates, openers, maxnodes, maxdepth, invariant
     return s
 
 
-def enumerate_programs(rep, name, cfg, wd, module='AstConfigs', timeout=1800):
-    """Run the builder machine; return the list of complete programs TLC emitted."""
-    res = core.run_tlc(module, cfg, wd, timeout=timeout)
-    rep.add_model_check('AstEnum[%s]' % name, res)
+def enumerate_programs(rep, name, cfg, wd, module='AstConfigs', timeout=1800, sim=None):
+    """Run the builder machine (exhaustive BFS, or sim=(num, depth): TLC's random simulation of the same machine for
+    programs deeper than BFS can reach); return the list of complete programs TLC emitted."""
+    if sim:
+        res = core.run_tlc(module, cfg, wd, timeout=timeout, workers=8, simulate='num=%d' % sim[0], depth=sim[1],
+                           tlc_seed=core.seed() + 1)
+        rep.add_model_check('AstEnum[%s] simulate num=%d depth=%d' % (name, sim[0], sim[1]), res)
+    else:
+        res = core.run_tlc(module, cfg, wd, timeout=timeout)
+        rep.add_model_check('AstEnum[%s]' % name, res)
     progs = []
     # TLC's workers print in a nondeterministic order: sort, so that seeded sampling is reproducible
     for line in sorted(set(res['out'].splitlines())):
@@ -156,8 +162,9 @@ def run_property(prop, tier, configs, sites_fn, owned, nontrivial, rule, module=
     rng = random.Random(core.seed())
     wd = core.workdir(prop)
     jobs = []
-    for name, consts, budget in configs[tier]:
-        progs = enumerate_programs(rep, name, ast_cfg(*consts), wd)
+    for entry in configs[tier]:
+        name, consts, budget = entry[:3]
+        progs = enumerate_programs(rep, name, ast_cfg(*consts), wd, sim=entry[3] if len(entry) > 3 else None)
         rep.cov.setdefault('enumerated_programs', {})[name] = len(progs)
         if len(progs) > budget:
             progs = rng.sample(progs, budget)
